@@ -432,9 +432,10 @@ def mime_server_grad(case):
   want_c = ref_grad(loss, reg, W0, allex) if len(allex['y']) else None
   for bs, k in geoms:
     nc = dict(case, geom=[bs, k])
-    key = ('mime_alg', loss, reg, bs, k)
+    base = case.get('base', 'sgd')   # 'mom': the base optimizer's momentum buffer holds the server gradient after a round
+    key = ('mime_alg', loss, reg, bs, k, base)
     if key not in _CACHE:
-      _CACHE[key] = mime.mime(per_ex, fedjax.optimizers.sgd(lr),
+      _CACHE[key] = mime.mime(per_ex, fedjax.optimizers.sgd(lr) if base == 'sgd' else fedjax.optimizers.sgd(lr, momentum=0.5),
                               fedjax.ShuffleRepeatBatchHParams(batch_size=2, num_epochs=None, num_steps=1, seed=0),
                               fedjax.PaddedBatchHParams(batch_size=bs, num_batch_size_buckets=k), server_learning_rate=slr,
                               regularizer=regz)
@@ -443,6 +444,18 @@ def mime_server_grad(case):
     from mc import algos
     algos.aborted_round(alg, alg.init(jparams(W0)), clients)  # a round that fails at its last client, then the real one
     st, _ = alg.apply(alg.init(jparams(W0)), clients)
+    for leaf in jax.tree_util.tree_leaves(st):
+      require(bool(np.all(np.isfinite(np.asarray(leaf, np.float64)))), 'Mime: the server state after the round is not finite (a '
+              'cohort without real examples must give a zero server gradient, not NaN)', case=nc)
+    if base == 'mom':
+      # momentum buffer after the first round = full-batch server gradient (zero for a cohort without examples)
+      mom = [np.asarray(l, np.float64) for l in jax.tree_util.tree_leaves(st.opt_state) if np.asarray(l).shape in ((2,), ())]
+      wc = want_c if want_c is not None else {'w': np.zeros(2), 'b': np.zeros(())}
+      got_m = {('w' if m.shape == (2,) else 'b'): m for m in mom}
+      if set(got_m) == {'w', 'b'}:
+        cmp_tree(got_m, wc, 'Mime: the full-batch server gradient held by the base optimizer differs from the reference', nc, tol=2e-4)
+      evals += 1
+      continue
     if want_c is None:
       for kk in ('w', 'b'):
         require(np.array_equal(np.asarray(st.params[kk]), np.asarray(jparams(W0)[kk])), 'a cohort without examples moved the '
@@ -489,7 +502,8 @@ def plan(ctx):
            [{'loss': 'sq', 'reg': 'l2c', 'sizes': t, 'seed': s, 'backend': be} for be in bes for t in ptuples], chunk=2)
   ctx.pmap('reg_sequence', [{'loss': l, 'N': n, 'seed': s} for l in ('sq', 'abs') for n in (0, 3, 5)], chunk=1)
   ctx.pmap('mime_server_grad', [{'loss': l, 'reg': r, 'sizes': t, 'seed': s} for l in ('sq',) for r in ('none', 'l2', 'l2c')
-                                for t in ([3], [2, 0, 3], [0, 0], [5, 1])], chunk=1)
+                                for t in ([3], [2, 0, 3], [0, 0], [5, 1])] +
+           [{'loss': 'sq', 'reg': r, 'sizes': t, 'seed': s, 'base': 'mom'} for r in ('none', 'l2c') for t in ([0, 0], [0], [2, 0, 3])], chunk=1)
   ctx.pmap('agnostic_domain', [{'loss': l, 'sizes': t, 'num_domains': nd, 'seed': s} for l in ('sq', 'abs')
                                for t in tuples for nd in (2, 3)] +
            [{'loss': 'sq', 'sizes': t, 'num_domains': 2, 'seed': s, 'reg': r} for r in ('l2', 'l2c') for t in tuples] +
